@@ -81,6 +81,13 @@ func c16Fixed() []c16Case {
 	_ = items
 	return []c16Case{
 		{"top-level-two", map[string]string{"p.vuego": `<i v-once>M1</i><b v-once>M2</b><i>M3</i>`}, "p.vuego", map[string]int{"M1": 1, "M2": 1, "M3": 1}},
+		// marked elements INSIDE a marked element: each of them is an element of its own - emitted once, with the wrapper's first instance
+		{"nested-once-two-inside", map[string]string{"p.vuego": `<div v-once><style v-once>M1</style><script v-once>M2</script><i>M3</i></div>`}, "p.vuego", map[string]int{"M1": 1, "M2": 1, "M3": 1}},
+		{"nested-once-in-loop", map[string]string{"p.vuego": `<section v-for="x in items"><div v-once><b v-once>M1</b><u v-once>M2</u></div><i v-once>M3</i><s>M4</s></section>`}, "p.vuego", map[string]int{"M1": 1, "M2": 1, "M3": 1, "M4": 3}},
+		{"nested-once-template-wrapper", map[string]string{"p.vuego": `<template v-once><b v-once>M1</b><u v-once>M2</u></template><p><i v-once>M3</i></p>`}, "p.vuego", map[string]int{"M1": 1, "M2": 1, "M3": 1}},
+		{"nested-once-across-components", map[string]string{"p.vuego": `<template include="w.vuego"></template><template include="l.vuego"></template><template include="w.vuego"></template>`,
+			"w.vuego": `<div v-once><style v-once>M1</style><span>M2</span></div>`, "l.vuego": `<div v-once><style v-once>M3</style><span>M4</span></div>`}, "p.vuego", map[string]int{"M1": 1, "M2": 1, "M3": 1, "M4": 1}},
+		{"nested-once-three-deep", map[string]string{"p.vuego": `<div v-once><p v-once><b v-once>M1</b></p><p v-once><b v-once>M2</b></p></div>`}, "p.vuego", map[string]int{"M1": 1, "M2": 1}},
 		{"loop-child", map[string]string{"p.vuego": `<ul><li v-for="x in items"><i v-once>M1</i><b>M2</b></li></ul>`}, "p.vuego", map[string]int{"M1": 1, "M2": 3}},
 		{"loop-child-two-distinct", map[string]string{"p.vuego": `<ul><li v-for="x in items"><i v-once>M1</i><b v-once>M2</b></li></ul>`}, "p.vuego", map[string]int{"M1": 1, "M2": 1}},
 		{"loop-root", map[string]string{"p.vuego": `<ul><li v-for="x in items" v-once>M1</li></ul>`}, "p.vuego", map[string]int{"M1": 1}},
